@@ -253,6 +253,24 @@ func runC16(rec *vkit.Recorder, c *c16Case, t *rapid.T) []vkit.Violation {
 	if h, _, _ := hashOf(text0); h != h0 {
 		add("C16/unstable-in-process", "two computations over the same text give %s and %s", h0, h)
 	}
+	// the coordinator reads the configuration from a file, sidecars get the same content pushed as raw
+	// text (or read their own copy in another directory): same content => same hash
+	for k, sub := range []string{"etc/prometheus", "other/place/conf.d"} {
+		d, err := ioutil.TempDir("", "c16-file-")
+		if err == nil {
+			fdir := d + "/" + sub
+			_ = os.MkdirAll(fdir, 0755)
+			f := fdir + "/prometheus.yml"
+			_ = ioutil.WriteFile(f, []byte(text0), 0644)
+			cm := prom.NewConfigManager()
+			if err := cm.ReloadFromFile(f); err != nil {
+				add("C16/file-load-fails", "content accepted as raw text is rejected when read from a file: %v", err)
+			} else if h := cm.ConfigInfo().ConfigHash; h != h0 {
+				add("C16/hash-depends-on-how-content-is-loaded", "the same content hashes to %s when pushed as raw text and to %s when read from the file %s (load %d)", h0, h, f, k)
+			}
+			_ = os.RemoveAll(d)
+		}
+	}
 	// neutral transformations
 	for i, st := range c.Neutral {
 		sp := c.Spec.Clone()
